@@ -16,6 +16,7 @@ package c04
 
 import (
 	"bytes"
+	"context"
 	"encoding/hex"
 	"encoding/json"
 	"fmt"
@@ -23,6 +24,7 @@ import (
 	"io/ioutil"
 	"net/http"
 	"strconv"
+	"time"
 
 	"github.com/emersion/go-webdav/verifharness/davx"
 	"github.com/emersion/go-webdav/verifharness/doubles"
@@ -53,12 +55,28 @@ type seenHdr struct {
 type tap struct {
 	inner http.Handler
 	last  *seenHdr
+	// done, when non-empty, makes the handler see a request whose context is
+	// already done, as behind a timeout middleware or a reverse proxy whose
+	// deadline has run out ("deadline"), or after the client has gone away
+	// ("cancelled"). The request itself (headers, body) is complete.
+	done string
 }
 
 func (t *tap) ServeHTTP(w http.ResponseWriter, r *http.Request) {
 	t.last = &seenHdr{
 		IM: r.Header.Get("If-Match"), INM: r.Header.Get("If-None-Match"),
 		NIM: len(r.Header.Values("If-Match")), NINM: len(r.Header.Values("If-None-Match")),
+	}
+	switch t.done {
+	case "cancelled":
+		ctx, cancel := context.WithCancel(r.Context())
+		cancel()
+		r = r.WithContext(ctx)
+	case "deadline":
+		// a deadline in 1970 has passed whatever the clock says
+		ctx, cancel := context.WithDeadline(r.Context(), time.Unix(0, 0))
+		defer cancel()
+		r = r.WithContext(ctx)
 	}
 	t.inner.ServeHTTP(w, r)
 }
@@ -155,6 +173,7 @@ func unhx(s string) string {
 
 func run(c *fw.Ctx) {
 	runProduct(c)
+	runNear(c)
 	runAnnounce(c)
 	runCodec(c)
 	runPassThrough(c)
@@ -201,6 +220,8 @@ func init() {
 		Run:    run,
 		Replay: replay,
 		Rule: "product (exhaustive, both tiers): resource state {absent,file,collection} x If-Match {unset,*,current,stale,other,bare-word,weak,list,unterminated} x If-None-Match likewise x {PUT,DELETE} = 486 requests against webdav.Handler{LocalFileSystem}, each on a fresh tree with explicit mtimes, judged by the statement's truth table on (status, strict before/after snapshot incl. directory mtimes); current/stale tags are the strings the server announced (GET ETag) before/after a size+mtime change (collections: LocalFileSystem.Stat). " +
+			"every cell is repeated with an ignorable date validator, under another spelling of the path, one in four at another placement (/d/t; served directory named with a trailing slash or a '.' element), and once as a request whose context is already done when the handler sees it (cancelled / deadline passed): such a request may be given up with 5xx/408, but one whose preconditions fail changes nothing and any other answer is judged as with a live context. " +
+			"near: the earlier ('stale') state of the file differs from the current one by 1 ns / <1 us / <1 ms / <1 s of modification time at equal size, or by one byte at equal modification time (os.Chtimes on a file system that stores what was set, else skipped), earlier or later, random base time: the earlier state's tag in If-Match -> 412 unchanged, in If-None-Match -> holds; and well-formed tags one character away from the current one (prefix, extension, other case, one digit) behave as 'other'. " +
 			"announce: files created by PUT with seeded sizes, optionally re-dated with os.Chtimes (epoch, 1ns, pre-1970, far future, random ns): ETag of PUT/GET/HEAD and getetag of PROPFIND (allprop, prop, Depth 1 on the parent) are one string; that string in If-None-Match -> 412 unchanged, in If-Match -> carried out. " +
 			"codec: seeded tag byte strings (quotes, backslashes, control bytes, non-ASCII, invalid UTF-8, escape look-alikes) through internal.ETag.String -> ConditionalMatch.{IsSet,IsWildcard,ETag,MatchETag} and xml.Marshal(GetETag) -> independent reader / xml.Unmarshal; by-construction malformed values must be refused by the helpers; every 4th tag is also served from a MemFS through webdav.Handler (GET/HEAD/PROPFIND/PUT announce one string; the options the FileSystem received equal the header strings the server saw). " +
 			"passthru: seeded header value pairs (unset, empty, *, quoted, hostile-quoted, weak, list, garbage, padded, long) PUT to caldav.Handler and carddav.Handler over recording backends: options received == r.Header.Get of both headers. " +
@@ -214,6 +235,9 @@ func init() {
 			"well-formed header values are exactly those the library itself announced, plus \"…\" around [A-Za-z0-9._-]*",
 			"header values are delivered through http.Request.Write / http.ReadRequest; the oracle of the pass-through part is relative to r.Header.Get as the handler sees it",
 			"mtimes are set with os.Chtimes; no oracle depends on wall-clock time",
+			"two states of a file are two states when the file system tells them apart (modification time in nanoseconds as stored, size); two states with the same (mtime, size) and different content are never used, nor pairs whose hex(mtime)+hex(size) concatenations coincide (the anchored definition of the tag makes them one tag)",
+			"a request whose context is already done: the statement is silent on giving up; 5xx/408 with the tree unchanged is accepted for every cell, 5xx/408 after having done exactly what the request asked is accepted when the preconditions hold (the status of such a request is C02's business)",
+			"interference family: an upload whose preconditions held when it began and that ends 2xx although another request changed the target meanwhile is tabulated, not judged - the statement does not fix the instant at which the tag is 'current'",
 		},
 		MinEvals: func(t string) int64 {
 			if t == "thorough" {
